@@ -27,7 +27,10 @@ RULE = ("(a) all target patterns of depth 1 (arity 1..3, leaf kinds name/attribu
         "Hypothesis; (b) the complete operator x target x operand-kind x placement matrix of "
         "augmented assignment, type-incompatible cells (original raises) discarded and counted; (c) stores "
         "that are the only effect of a taken if-branch (28 falsy and truthy values x the binding forms of "
-        "the falsy-body family x 6 shapes incl. class body, declared global, nonlocal) x 8 configurations. "
+        "the falsy-body family x 6 shapes incl. class body, declared global, nonlocal) x 8 configurations; "
+        "(d) augmented assignment on a name whose textually preceding assignment did not run or was "
+        "overtaken (untaken branch, zero-iteration loop, walrus / loop target / nested function in between): "
+        "7 run-time kinds x 11 written values x operators x 5 shapes x 4 placements. "
         "Each case under the 4 semantic configurations with alternating unparser (matrix) / all 8 "
         "(drawn). Non-trivial: the pattern has a star or nesting, or the operand type has an "
         "in-place method / is a user class; distinct by case source.")
@@ -404,6 +407,58 @@ def _deep_shard(item):
     return part
 
 
+# ------------------------------------------------------------------ (d) what the name holds at RUN time
+
+# an augmented assignment must work on what the name holds when it runs, not on what the textually
+# preceding assignment wrote: that assignment may sit in an untaken branch, or the name is rebound
+# in between by a walrus, a nested function, a loop target, a def
+RUN_VALUES = {"int": ("3", "4"), "list": ("[1]", "[2]"), "str": ("'a'", "'b'"), "tuple": ("(1,)", "(2,)"),
+              "set": ("{1}", "{2}"), "float": ("1.5", "2.0"), "user": ("MK('inplace_self', 1)", "5")}
+TEXT_VALUES = ["[]", "[7]", "[e for e in range(2)]", "{}", "{1: 2}", "set()", "''", "0", "()", "None", "list()"]
+OPS_BY_KIND = {"int": ("+=", "*=", "-=", "|="), "list": ("+=", "*="), "str": ("+=",), "tuple": ("+=",),
+               "set": ("|=", "-=", "^="), "float": ("+=", "*="), "user": ("+=",)}
+
+
+def run_time_cases():
+    for kind, (val, operand) in sorted(RUN_VALUES.items()):
+        for tv in TEXT_VALUES:
+            for op in OPS_BY_KIND[kind]:
+                b = operand if not (op == "*=" and kind == "list") else "2"
+                shapes = {
+                    "untaken-branch": "x = %s\nal = x\nif P(1, 0):\n    x = %s\nx %s %s\nL('r', x, al, x is al)\n" % (val, tv, op, b),
+                    "zero-loop": "x = %s\nal = x\nfor q in P(1, []):\n    x = %s\nx %s %s\nL('r', x, al, x is al)\n" % (val, tv, op, b),
+                    "walrus-between": "x = %s\nal = (x := %s)\nx %s %s\nL('r', x, al, x is al)\n" % (tv, val, op, b),
+                    "loop-target-between": "x = %s\nfor x in [%s]:\n    pass\nal = x\nx %s %s\nL('r', x, al, x is al)\n" % (tv, val, op, b),
+                    "taken-else": "if P(1, 0):\n    x = %s\nelse:\n    x = %s\nal = x\nx %s %s\nL('r', x, al, x is al)\n" % (tv, val, op, b),
+                }
+                for shape, body in sorted(shapes.items()):
+                    for where in ("module", "function", "class", "nested-rebind"):
+                        if where == "module":
+                            src = body
+                        elif where == "function":
+                            src = "def FF():\n" + "".join("    " + l + "\n" for l in body.splitlines()) + "FF()\n"
+                        elif where == "class":
+                            src = "class KK:\n" + "".join("    " + l + "\n" for l in body.splitlines())
+                        else:
+                            if shape != "untaken-branch":
+                                continue
+                            # the name is rebound by a nested function between the textual assignment and the statement
+                            src = ("def FF():\n    x = %s\n    def rebind():\n        nonlocal x\n        x = %s\n    rebind()\n    al = x\n    x %s %s\n"
+                                   "    L('r', x, al, x is al)\nFF()\n" % (tv, val, op, b))
+                        yield ("runtime:%s:%s" % (kind, shape), src)
+
+
+def _run_time_shard(item):
+    idx, nshards = item
+    part = new_part()
+    for k, (tag, src) in enumerate(run_time_cases()):
+        if k % nshards != idx:
+            continue
+        check_src(part, tag, src, True, [env.ALL_CFGS[k % 8], env.ALL_CFGS[(k + 5) % 8]],
+                  "augmented assignment on what the name holds at run time differs (%s)" % tag)
+    return part
+
+
 def _branch_store_shard(item):
     """stores that are the ONLY effect of a taken branch, for falsy and truthy stored values: what
     the target receives must not depend on how the branch is encoded (the falsy-body family of C05,
@@ -446,6 +501,7 @@ def run(report):
     items = [(_aug_shard, (i, ns, switches)) for i in range(ns)]
     items += [(_pattern_shard, (i, ns, quick)) for i in range(ns)]
     items += [(_branch_store_shard, (i, ns)) for i in range(ns)]
+    items += [(_run_time_shard, (i, ns)) for i in range(ns)]
     items += [(_deep_shard, (env.sub_seed(report.seed, "C13", i), 40 if quick else 2500)) for i in range(env.NPROC)]
     from .. import hosts
     others = hosts.available_other_hosts()
